@@ -307,6 +307,9 @@ def plan_C03(w):
     known = vlib.load_known()
     run_mc(w, [("hg1", "MC_hg1.cfg", 4, 300), ("hg2q", "MC_hg2q.cfg", 8, 600)] if q else
               [("hg1", "MC_hg1.cfg", 4, 300), ("hg2t", "MC_hg2t.cfg", 14, 1500)])
+    # the property itself at design level: every linearization of a node's event set
+    # yields the same values and block bodies (C03_OrderIndependent)
+    run_mc(w, [("hg2o", "MC_hg2o.cfg", 6, 600)] if q else [("hg2ot", "MC_hg2ot.cfg", 12, 1500)])
     if q:
         kinds = [("ordA", dict(traces=4, n=0, steps=70)), ("ordB", dict(traces=2, n=4, steps=110)), ("ordF", dict(traces=3, sched="funky"))]
     else:
